@@ -120,8 +120,12 @@ func c10Gen(r *Rng, id int) c10Hist {
 			h.Ops = append(h.Ops, c10Op{Op: "perp_trigger_boundary", U: u, Idx: r.Intn(4), Dir: r.Intn(3), Rel: r.Intn(2), N: int64(r.Intn(2))})
 		case x < 81:
 			h.Ops = append(h.Ops, c10Op{Op: "perp_liq_boundary", U: u, Idx: r.Intn(4), Dir: r.Intn(3)})
-		case x < 83:
+		case x < 82:
 			h.Ops = append(h.Ops, c10Op{Op: "perp_open_boundary", U: u, Dir: r.Intn(4), Amt: r.Decade(4, 9).String(), Lev: plevs[r.Intn(len(plevs))], Rel: r.Intn(4)})
+		case x < 83:
+			h.Ops = append(h.Ops, c10Op{Op: "perp_open", U: u, Dir: r.Intn(2), Amt: r.Decade(7, 9).String(), Lev: []string{"2", "3", "5"}[r.Intn(3)], Rel: 0},
+				c10Op{Op: "blocks", N: 2, DT: 604800},
+				c10Op{Op: "perp_topup_boundary", U: u, Idx: r.Intn(4), Dir: r.Intn(3), Rel: r.Intn(4) / 3})
 		case x < 86:
 			h.Ops = append(h.Ops, c10Op{Op: "upd", U: u, Idx: r.Intn(4), Dir: r.Intn(3), Rel: r.Intn(4)})
 		case x < 92:
@@ -982,6 +986,9 @@ func (r *c10Run) healthOfOpened2(ctx sdk.Context, perp bool, owner sdk.AccAddres
 			return "", p, h, stored, false
 		}
 		stored = mtp.MtpHealth
+		// what a liquidation request evaluates next: the interest accrued up to now is booked first (a no-op right after an
+		// open that booked it itself)
+		c10Safely(func() { r.w.App.PerpetualKeeper.UpdateMTPBorrowInterestUnpaidLiability(pc, &mtp) })
 		if c10Safely(func() { h, err = r.w.App.PerpetualKeeper.GetMTPHealth(pc, mtp, ammPool, USDC) }) || err != nil {
 			return "", p, h, stored, false
 		}
@@ -1349,6 +1356,21 @@ func (r *c10Run) exec(op c10Op) TxResult {
 		return r.open(true, r.perpOpenMsg(op), m.Users[op.U%len(m.Users)])
 	case "perp_open_boundary":
 		return r.openBoundary(true, r.perpOpenMsg(op), m.Users[op.U%len(m.Users)])
+	case "perp_topup_boundary":
+		// a position left alone for a long time (interest accrued but not booked), the market steered so that its health -
+		// as a liquidation would compute it - is just below (Rel 0) / just above (Rel 1) the safety factor, then the owner
+		// tops it up with leverage 0 and an amount too small to matter: accepted only if the resulting health is above the factor
+		ms := w.App.PerpetualKeeper.GetAllMTPs(w.QCtx())
+		if len(ms) == 0 {
+			return TxResult{Err: fmt.Errorf("skip")}
+		}
+		p := ms[op.Idx%len(ms)]
+		r.x.steer(lOp{Op: "steer", Dir: 0, Idx: op.Idx, Rel: op.Rel % 2})
+		r.count(fmt.Sprintf("perp_topup_boundary_rel%d", op.Rel%2))
+		owner := sdk.MustAccAddressFromBech32(p.Address)
+		msg := &perptypes.MsgOpen{Creator: p.Address, Position: p.Position, Leverage: dec("0"), TradingAsset: p.TradingAsset,
+			Collateral: sdk.NewCoin(p.CollateralAsset, sdkmath.NewInt([]int64{1, 1000, 100000}[op.Dir%3])), TakeProfitPrice: p.TakeProfitPrice, StopLossPrice: dec("0"), PoolId: p.AmmPoolId}
+		return r.open(true, msg, owner)
 	case "lev_close":
 		ps := w.App.LeveragelpKeeper.GetAllPositions(w.QCtx())
 		if len(ps) == 0 {
